@@ -9,6 +9,8 @@ package main
 import (
 	"fmt"
 	"sort"
+	"strconv"
+	"strings"
 
 	"harness/engc"
 	"harness/sim"
@@ -64,6 +66,7 @@ func gen(r *sim.Rng, tier string) *sim.Case {
 			nv = r.Range(10, 13)
 		}
 		p["nv"] = nv
+		p["vt"] = r.N(3) // vertex type: int, string, struct
 		kind := r.Pick(4, 2, 1, 1)
 		p["gkind"] = kind
 		dens := r.Range(5, 95)
@@ -357,7 +360,34 @@ func solvers(c *sim.Case, out *sim.WorkerOut, dg *engc.Digest) *sim.Violation {
 	return nil
 }
 
+type vkey struct {
+	A int
+	B string
+}
+
+// cliques runs the clique scenario with one of several vertex types (vt): the graph is generic.
 func cliques(c *sim.Case, out *sim.WorkerOut, dg *engc.Digest) *sim.Violation {
+	switch c.P("vt") {
+	case 1:
+		return cliquesT(c, out, dg, func(i int) string { return "v" + strconv.Itoa(i) }, func(s string) int {
+			n, err := strconv.Atoi(strings.TrimPrefix(s, "v"))
+			if err != nil {
+				return -1
+			}
+			return n
+		})
+	case 2:
+		return cliquesT(c, out, dg, func(i int) vkey { return vkey{i, "x" + strconv.Itoa(i%3)} }, func(k vkey) int {
+			if k.B != "x"+strconv.Itoa(k.A%3) {
+				return -1
+			}
+			return k.A
+		})
+	}
+	return cliquesT(c, out, dg, func(i int) int { return i }, func(i int) int { return i })
+}
+
+func cliquesT[T comparable](c *sim.Case, out *sim.WorkerOut, dg *engc.Digest, mk func(int) T, unmk func(T) int) *sim.Violation {
 	nv := c.P("nv")
 	if nv < 1 {
 		nv = 1
@@ -365,19 +395,19 @@ func cliques(c *sim.Case, out *sim.WorkerOut, dg *engc.Digest) *sim.Violation {
 	if nv > 13 {
 		nv = 13
 	}
-	var g algz.Graph[int]
+	var g algz.Graph[T]
 	adj := make([][]bool, nv)
 	for i := range adj {
 		adj[i] = make([]bool, nv)
 	}
 	for v := 0; v < nv; v++ {
-		g.AddNode(v) // isolated vertices included
+		g.AddNode(mk(v)) // isolated vertices included
 	}
 	for _, op := range c.Ops {
 		if op.Op != "Edge" || op.K == op.V || op.K < 0 || op.V < 0 || op.K >= nv || op.V >= nv {
 			continue
 		}
-		g.AddUndirectedEdge(op.K, op.V)
+		g.AddUndirectedEdge(mk(op.K), mk(op.V))
 		adj[op.K][op.V], adj[op.V][op.K] = true, true
 	}
 	got := g.GetMaximalCliques()
@@ -413,7 +443,8 @@ func cliques(c *sim.Case, out *sim.WorkerOut, dg *engc.Digest) *sim.Violation {
 	seen := map[int]bool{}
 	for _, cl := range got {
 		m := 0
-		for _, x := range cl {
+		for _, xt := range cl {
+			x := unmk(xt)
 			if x < 0 || x >= nv {
 				return viol("vertex_invented", "(*Graph).GetMaximalCliques", "clique %v contains a vertex that is not in the graph", cl)
 			}
